@@ -21,6 +21,10 @@ def _p_len(eng, recv, args, kwargs):
 
 
 def _p_getitem(eng, recv, args, kwargs):
+    if not eng.spec_mode and not getattr(eng, "pure_mode", 0):
+        # ghost log: a lookup in a member is a REQUEST for that member's tree (it may load a file there); clauses count
+        # these with ncalls('Trees.__getitem__') / callarg('Trees.__getitem__', j, 'self' | 'key')
+        eng.call_log.append(("Trees.__getitem__", dict(self=Sym(recv.z, "ref"), key=args[0])))
     return Sym(ITEM(recv.z, to_z3(args[0], "int")), "ref")
 
 
@@ -99,6 +103,12 @@ def register(R: Registry):
             "self.cumsum[m] <= ite(key < 0, key + self.cumsum[len_(self.trees)], key) and "
             "ite(key < 0, key + self.cumsum[len_(self.trees)], key) < self.cumsum[m + 1] and "
             "same(result, item(self.trees[m], ite(key < 0, key + self.cumsum[len_(self.trees)], key) - self.cumsum[m])))",
+            # "only when that file's tree is requested", through a chain: exactly ONE member is asked, for exactly that tree
+            "exactly-one-member-lookup-for-the-requested-tree :: ncalls('Trees.__getitem__') == 1 and exists(0, len_(self.trees), lambda m: "
+            "self.cumsum[m] <= ite(key < 0, key + self.cumsum[len_(self.trees)], key) and "
+            "ite(key < 0, key + self.cumsum[len_(self.trees)], key) < self.cumsum[m + 1] and "
+            "same(callarg('Trees.__getitem__', 0, 'self'), self.trees[m]) and "
+            "callarg('Trees.__getitem__', 0, 'key') == ite(key < 0, key + self.cumsum[len_(self.trees)], key) - self.cumsum[m])",
         ],
         loops={
             0: dict(
@@ -420,3 +430,106 @@ _reg19 = register
 def register(R):  # noqa: F811
     _reg19(R)
     register_nest(R)
+
+
+# ---------------------------------------------------------------------------
+# Iteration.  `__iter__` returns a generator expression whose element `self[i]` has a side effect (it may load file i), so the
+# contract has two parts:  (1) postconditions about the CREATION of the iterator (a lazy iterator with one item per tree;
+# nothing is read, nothing changes);  (2) the ITEM RULE (pyvc/ext_C19.py: arbitrary_item): for an arbitrary position k and an
+# arbitrary state satisfying the object invariant, the REAL element expression is run for position k and the `item/...`
+# obligations are proved: item k is the tree of the k-th file, only slot k may change, at most one read and none if cached,
+# the invariant is kept (so it holds again when item k+1 is requested, whatever happened in between through other methods).
+def _is_lazy_iter(n_expr):
+    def f(E, v, o):
+        r = v["result"]
+        if not isinstance(r, X.LazySeq):
+            return False
+        return r.nz() == to_z3(_eval_term(E, n_expr, v), "int")
+
+    return f
+
+
+def _eval_term(E, text, vars):
+    """value of a clause-language term over `vars`"""
+    import ast as _ast
+
+    from pyvc.engine import Frame
+    from pyvc.spec import SPECLIB
+
+    g = dict(SPECLIB)
+    g.update(E.spec_extra)
+    return E.ev(_ast.parse(text, mode="eval").body, Frame(vars=dict(vars), globs=g))
+
+
+CREATION = "creating-the-iterator-requests-nothing :: ncalls('LazyLoadingTrees.__getitem__') == 0 and ncalls('LazyLoadingTrees.load') == 0 and ncalls('Tree.from_swc') == 0 and ncalls('Trees.__getitem__') == 0 and ncalls('ChainTrees.__getitem__') == 0"
+
+
+def item_lazy(p):
+    return ([f"item-k-is-the-tree-of-the-k-th-file :: same(got, tree_of({p}.swcs[k])) and not same(got, None)",
+             "requests-exactly-item-k :: ncalls('LazyLoadingTrees.__getitem__') == 1 and callarg('LazyLoadingTrees.__getitem__', 0, 'key') == k"]
+            + frame_lazy(p, "k") + [c.replace("wf-", "inv-kept/") for c in wf_lazy(p)])
+
+
+def register_iter(R):
+    from swcgeom.core.population import ChainTrees, LazyLoadingTrees, Population  # noqa: F401
+
+    def pop_lazy(S):
+        return S.obj(Population, trees=lazy_obj(S), root="")
+
+    def pop_any(S):
+        return S.obj(Population, trees=Opaque(z3.Int(fresh_name("trees")), TREES_PROTO), root="")
+
+    # ------------------------------------------------------------------ LazyLoadingTrees.__iter__
+    R.add(f"{POP}:LazyLoadingTrees.__iter__", prop="C19",
+          setup=lambda S: dict(self=lazy_obj(S), __ghost__=GHOST),
+          requires=WF_LAZY,
+          options=dict(genexp_hook=X.genexp_hook),
+          ghost_exit=lambda E, v, o: X.arbitrary_item(E, v["result"], "LazyLoadingTrees.__iter__/item", dict(self=v["self"]), WF_LAZY, item_lazy("self")),
+          ensures=[("a-lazy-iterator-with-one-item-per-file", _is_lazy_iter("len_(self.swcs)")), CREATION] + frame_lazy("self"))
+
+    # ------------------------------------------------------------------ Population.__iter__
+    def pop_iter_exit(E, v, o):
+        s = v["self"]
+        if isinstance(s.fields["trees"], Opaque):
+            X.arbitrary_item(E, v["result"], "Population.__iter__/item", dict(self=s), [],
+                             ["item-k-is-the-k-th-tree-of-the-container :: same(got, item(self.trees, k))",
+                              "requests-exactly-item-k :: ncalls('Trees.__getitem__') == 1 and same(callarg('Trees.__getitem__', 0, 'self'), self.trees) and callarg('Trees.__getitem__', 0, 'key') == k"])
+        else:
+            X.arbitrary_item(E, v["result"], "Population.__iter__/item", dict(self=s), wf_lazy("self.trees"), item_lazy("self.trees"))
+
+    R.add(f"{POP}:Population.__iter__", prop="C19",
+          variants={"lazy": lambda S: dict(self=pop_lazy(S), __ghost__=GHOST), "any-trees": lambda S: dict(self=pop_any(S), __ghost__=GHOST)},
+          requires=[("object-invariant-of-a-lazy-container", lambda E, v, o: True if isinstance(v["self"].fields["trees"], Opaque) else _all(E, wf_lazy("self.trees"), v))],
+          options=dict(genexp_hook=X.genexp_hook),
+          ghost_exit=pop_iter_exit,
+          ensures=[("a-lazy-iterator-with-one-item-per-tree", _is_lazy_iter("len_(self.trees)")), CREATION,
+                   ("creating-the-iterator-changes-nothing", lambda E, v, o: True if isinstance(v["self"].fields["trees"], Opaque) else _all(E, frame_lazy("self.trees"), v, o))])
+
+    # ------------------------------------------------------------------ ChainTrees.__iter__
+    R.add(f"{POP}:ChainTrees.__iter__", prop="C19",
+          setup=lambda S: dict(self=chain_obj(S), __ghost__=GHOST),
+          requires=WF_CHAIN,
+          options=dict(genexp_hook=X.genexp_hook),
+          ghost_exit=lambda E, v, o: X.arbitrary_item(
+              E, v["result"], "ChainTrees.__iter__/item", dict(self=v["self"]), WF_CHAIN,
+              ["item-k-is-the-element-of-the-member-whose-window-contains-k :: exists(0, len_(self.trees), lambda m: self.cumsum[m] <= k and k < self.cumsum[m + 1] and same(got, item(self.trees[m], k - self.cumsum[m])))",
+               "requests-exactly-item-k :: ncalls('ChainTrees.__getitem__') == 1 and callarg('ChainTrees.__getitem__', 0, 'key') == k"]),
+          ensures=[("a-lazy-iterator-with-one-item-per-chained-tree", _is_lazy_iter("self.cumsum[len_(self.trees)]")), CREATION])
+
+
+def _all(E, clauses, v, o=None):
+    from pyvc.spec import eval_clause, split_label
+
+    acc = True
+    for j, cl in enumerate(clauses):
+        _, text = split_label(cl, f"c{j}")
+        acc = E.and_(acc, eval_clause(E, text, v, None, old_vars=o, extra=E.spec_extra))
+    return acc
+
+
+_reg19b = register
+
+
+def register(R):  # noqa: F811
+    _reg19b(R)
+    register_iter(R)
